@@ -253,6 +253,15 @@ def directed_cases(rng):
     nm = c01.Namer()
     X = agg(False, 0, [fld(nm(), prim("int")), fld(nm(), V(nm))])
     out.append(dict(form="ptr", top=X, init=dict(d=[["f2", dict(d=[["f4", dict(i=3)]])]])))
+    # sequence initializers skip the non-first members of (anonymous) unions
+    for k in (1, 2, 3, 4):
+        nm = c01.Namer()
+        U = agg(True, 0, [fld(nm(), prim("int")), fld(nm(), prim("char")), fld(nm(), prim("short"))], inline=True)
+        S = agg(False, 0, [fld(nm(), prim("int")), fld("", U), fld(nm(), prim("short")), fld(nm(), prim("long"))])
+        out.append(dict(form="ptr", top=S, init=dict(l=[dict(i=j + 1) for j in range(k)])))
+    nm = c01.Namer()
+    U = agg(True, 0, [fld(nm(), prim("short")), fld(nm(), prim("long")), fld(nm(), arr(prim("char"), 3))])
+    out.append(dict(form="ptr", top=U, init=dict(l=[dict(i=-2)])))
     for c in out:
         c["stream"] = "directed"
     return out
@@ -392,9 +401,15 @@ def prepare(case, idx):
         flexlen = None
         if var and top["fields"][-1]["t"]["k"] == "arr" and top["fields"][-1]["t"]["n"] < 0:
             flexlen = top["fields"][-1]["name"]
+        named = None
+        if top["k"] == "agg" and "l" in case["init"]:
+            elig = [n for n, f, ign in flat_nodes(top) if not ign]
+            if len(case["init"]["l"]) <= len(elig):
+                named = dict(d=[[n, x] for n, x in zip(elig, case["init"]["l"])])
         if "n" in case["init"]:
             assign = None            # ffi.new(T, None) means "no initializer"; p[0] = None is not an assignment of it
-        return dict(decls=decls, tags=tags, init=case["init"], newT=newT, isptr=True, assign=assign, flexlen=flexlen)
+        return dict(decls=decls, tags=tags, init=case["init"], newT=newT, isptr=True, assign=assign, flexlen=flexlen,
+                    named_init=named)
     ln = case["len"]
     newT = "%s[%s]" % (tstr, "" if ln < 0 else ln)
     assign = None if ln < 0 or "n" in case["init"] else dict(form="literal", T="%s(*)[%d]" % (tstr, ln))
@@ -435,7 +450,7 @@ def evaluate(ctx, cases, asan=False):
             if "layout" in r:
                 fit_cdata(cases[i]["init"], cases[i]["top"] if cases[i]["form"] == "ptr" else
                           arr(cases[i]["top"], cases[i]["len"]), Layout(cases[i], r["layout"]))
-                entries[i]["init"] = resolve_refs(cases[i]["init"], c01.agg_nodes(cases[i]["top"]))
+                entries[i] = prepare(cases[i], i)
     out, p = s.run_worker("c20_worker.py", dict(cases=entries, progress=asan), timeout=3000)
     if out is None:
         done = len(re.findall(r"^done \d+", p.stderr, re.M))
@@ -469,11 +484,18 @@ def evaluate(ctx, cases, asan=False):
                 problems.append("ffi.new(T, init) gives %s, ffi.new(T) then [0] = init gives %s" % (new["bytes"], asg["bytes"]))
             if asg and "error" in asg:
                 problems.append("ffi.new(T, init) succeeds, assignment of the same initializer raises " + asg["error"])
+            nm_ = r.get("named")
+            if nm_ is not None and nm_.get("bytes") != new["bytes"]:
+                problems.append("positional initializer gives %s, the same values given by field name (leading fields in "
+                                "order; first member of a union) give %s" % (new["bytes"], nm_.get("bytes") or nm_.get("error")))
             want = flex_request(c)
             if want is not None and new.get("flexlen") is not None and new["flexlen"] < want:
                 problems.append("flexible array initialised with %d items reads back with only %d" % (want, new["flexlen"]))
             if not has_content(c["init"]) and set(new["bytes"]) - {"0"}:
                 problems.append("no value written, memory not zero: " + new["bytes"])
+        elif r.get("named") is not None and "bytes" in r["named"]:
+            problems.append("positional initializer raises %s, the same values given by field name (leading fields in "
+                            "order; first member of a union) are accepted" % new["error"])
         elif asg and "bytes" in asg and e["assign"]["form"] == "literal":
             problems.append("ffi.new(T, init) raises %s, ffi.new(T) then [0] = init succeeds" % new["error"])
         elif asg and "error" in asg and e["assign"]["form"] == "literal" and asg["error"] != new["error"]:
